@@ -294,23 +294,34 @@ Lemma segment_length : forall m data, (4 <= length (segment m data))%nat.
 Proof. intros. unfold segment, be16. cbn [app length]. lia. Qed.
 
 (* ---------- every element produced by the traversal ---------- *)
-Lemma scan_map_Forall : forall {B} (f : bool -> bool -> Z -> Z -> Z -> Z -> B) (Q : B -> Prop),
+Lemma rows_map_Forall : forall {B} (f : bool -> bool -> Z -> Z -> Z -> Z -> B) (Q : B -> Prop),
   (forall r c l a al x, Q (f r c l a al x)) ->
-  forall comps w rows, Forall Q (scan_map f comps w rows).
+  forall r0 dpx prev rows, Forall Q (rows_map f r0 dpx prev rows).
 Proof.
-  intros B f Q HQ comps w rows. unfold scan_map.
+  intros B f Q HQ r0 dpx prev rows.
   assert (H4 : forall r c l a al x, Forall Q (map4 f r c l a al x)).
   { intros r c l. induction l as [|l0 l IH]; intros a al x; destruct a, al, x; cbn [map4]; try constructor.
     - apply HQ.
     - apply IH. }
-  assert (Hr : forall r c left aleft prev cur, Forall Q (row_map f r c left aleft prev cur)).
-  { intros r c left aleft prev cur. revert c left aleft prev.
-    induction cur as [|px cur IH]; intros c left aleft prev; destruct prev; cbn [row_map]; try constructor.
+  assert (Hr : forall r c left aleft pv cur, Forall Q (row_map f r c left aleft pv cur)).
+  { intros r c left aleft pv cur. revert c left aleft pv.
+    induction cur as [|px cur IH]; intros c left aleft pv; destruct pv; cbn [row_map]; try constructor.
     apply Forall_app. split; [apply H4 | apply IH]. }
-  generalize (repeat (repeat 0 comps) w) as prev. generalize true as r0.
+  revert r0 prev.
   induction rows as [|r rows IH]; intros r0 prev; cbn [rows_map]; [constructor|].
   apply Forall_app. split; [apply Hr | apply IH].
 Qed.
+
+Lemma ll_diffs_rows_map : forall w comps P pred rows,
+  ll_diffs w comps P pred rows =
+  rows_map (fdiff (ll_pred pred (2 ^ (P - 1)))) true (repeat 0 (Z.to_nat comps))
+           (repeat (repeat 0 (Z.to_nat comps)) (Z.to_nat w)) rows.
+Proof. reflexivity. Qed.
+Lemma sv1_diffs_rows_map : forall w comps P rows,
+  sv1_diffs w comps P rows =
+  rows_map (fdiff (sv1_pred (2 ^ (P - 1)))) true (repeat 0 (Z.to_nat comps))
+           (repeat (repeat 0 (Z.to_nat comps)) (Z.to_nat w)) rows.
+Proof. reflexivity. Qed.
 
 Lemma repeat_goodpx : forall P n, 2 <= P -> goodpx P n (repeat 0 n).
 Proof.
@@ -345,29 +356,51 @@ Proof.
 Qed.
 
 (* ---------- decoding what encode_stream wrote ---------- *)
+Definition stream_of (w h comps P pred : Z) (diffs bits vals : list Z) : list Z :=
+  be16 M_SOI ++ segment M_APP0 jfif_payload
+  ++ segment M_SOF3 (sof3_data w h comps P)
+  ++ segment M_DHT (dht_data 0 bits vals)
+  ++ segment M_SOS (sos_data comps pred)
+  ++ enc_syms (build_codes bits vals) w_init diffs
+  ++ be16 M_EOI.
+
+Lemma obind_Ok : forall {A B} (a : A) (f : A -> outcome B), obind (Ok a) f = f a.
+Proof. reflexivity. Qed.
+
+Lemma encode_stream_inv : forall w h comps P pred diffs bits vals s,
+  encode_stream w h comps P pred diffs = Ok s ->
+  build_optimal (count_freqs diffs) = Ok (bits, vals) ->
+  lookup_ok bits 0 0 (zlen vals) = true /\ s = stream_of w h comps P pred diffs bits vals.
+Proof.
+  intros w h comps P pred diffs bits vals s Henc Hopt.
+  unfold encode_stream, build_optimal_table in Henc. rewrite Hopt in Henc.
+  rewrite obind_Ok in Henc. unfold build_table, fst, snd in Henc.
+  destruct (lookup_ok bits 0 0 (zlen vals)); [|discriminate Henc].
+  rewrite obind_Ok in Henc. apply Ok_inj in Henc. split; [reflexivity|]. subst s. reflexivity.
+Qed.
+
 Definition covers (vals diffs : list Z) : Prop := Forall (fun d => In (diff_category d) vals) diffs.
 
 Lemma ll_decode_stream : forall w h comps P pred rows bits vals s,
   1 <= w <= 65535 -> 1 <= h <= 65535 -> comps = 1 \/ comps = 3 -> 2 <= P <= 16 -> 1 <= pred <= 7 ->
   length rows = Z.to_nat h ->
   Forall (fun r => length r = Z.to_nat w /\ Forall (goodpx P (Z.to_nat comps)) r) rows ->
-  let diffs := ll_diffs w comps P pred rows in
+  forall diffs, diffs = ll_diffs w comps P pred rows ->
   build_optimal (count_freqs diffs) = Ok (bits, vals) ->
   t81_table_ok bits vals = true -> covers vals diffs ->
   encode_stream w h comps P pred diffs = Ok s ->
   jll_decode s = Ok (rows_to_pixels P rows, w, h, comps, P).
 Proof.
-  intros w h comps P pred rows bits vals s Hw Hh Hc HP Hpred Hlen Hrows diffs Hopt Hok Hcov Henc.
+  intros w h comps P pred rows bits vals s Hw Hh Hc HP Hpred Hlen Hrows diffs Ediffs Hopt Hok Hcov Henc.
+  rewrite ll_diffs_rows_map in Ediffs.
   pose proof (table_ok_facts _ _ Hok) as F.
-  unfold encode_stream, build_optimal_table in Henc. rewrite Hopt in Henc. cbn [obind fst snd] in Henc.
-  unfold build_table in Henc. destruct (lookup_ok bits 0 0 (zlen vals)) eqn:Elk; [|discriminate].
-  cbn [obind ht_bits ht_vals] in Henc. apply Ok_inj in Henc. subst s.
-  fold (ht_of bits vals).
+  destruct (encode_stream_inv _ _ _ _ _ _ _ _ _ Henc Hopt) as [Elk Hs]. subst s.
+  unfold stream_of.
   assert (Hbt : build_table bits vals = Ok (ht_of bits vals)) by (unfold build_table; rewrite Elk; reflexivity).
   (* the scan bytes *)
   assert (Hdok : diffs_ok vals diffs).
   { unfold diffs_ok. apply Forall_forall. intros d Hd. split.
-    - revert d Hd. apply Forall_forall. unfold diffs, ll_diffs. apply scan_map_Forall.
+    - revert d Hd. apply Forall_forall. rewrite Ediffs. apply rows_map_Forall.
       intros. apply narrow16_range.
     - apply (proj1 (Forall_forall _ _) Hcov). assumption. }
   rewrite (enc_syms_emit bits vals diffs w_init [] F Hdok winv_init).
@@ -411,8 +444,7 @@ Proof.
   - apply repeat_length.
   - apply Forall_forall. intros x Hx. apply repeat_spec in Hx. subst x. exact Gd.
   - exact Gd.
-  - exact Hdok.
-  - change (rep (r_init (stuff bs)) (concat (map (word bits vals) diffs) ++ pad)).
-    rewrite <- E3. rewrite <- (app_nil_r (stuff bs)). apply rep_init. exact E2.
+  - rewrite <- Ediffs. exact Hdok.
+  - rewrite <- Ediffs. unfold wd. rewrite <- E3. rewrite <- (app_nil_r (stuff bs)). apply rep_init. exact E2.
   - rewrite <- Hlen. rewrite Edec. reflexivity.
-Qed.
+Time Qed.
